@@ -52,7 +52,7 @@ def tree_hash():
         except OSError:
             h.update(b'?')
     # the harness and the translator are part of what is built
-    for extra in ('harness/src/main.rs', 'harness/Cargo.toml.in', 'tools/expand2dfa.py'):
+    for extra in ('harness/src/main.rs', 'harness/src/ops2.rs', 'harness/src/ops3.rs', 'harness/Cargo.toml.in', 'tools/expand2dfa.py'):
         with open(os.path.join(VERIF, extra), 'rb') as f:
             h.update(hashlib.sha256(f.read()).digest())
     return h.hexdigest()[:24]
@@ -277,3 +277,73 @@ class Result:
             print(l)
         sys.stdout.flush()
         return 1 if self.violations else 0
+
+# ---------------------------------------------------------------------------------------------
+# property theorem files (coq/Cxx.v): always recompiled so that Print Assumptions is re-read
+
+def props_check(R, name, extra_targets=()):
+    """Recompile coq/<name>.v (after its dependencies), require every Print Assumptions to be closed.
+       Records obligations/discharged in R.cov; returns True when everything checked."""
+    bad = audit_sources()
+    if bad:
+        R.violation({'kind': 'forbidden-construct in the Coq development', 'where': bad}, no_input=True)
+        return False
+    with Lock('coq'):
+        if not os.path.exists(os.path.join(COQ, 'Makefile')):
+            sh(['coq_makefile', '-f', '_CoqProject', '-o', 'Makefile'], cwd=COQ)
+        vo = os.path.join(COQ, name + '.vo')
+        if os.path.exists(vo):
+            os.remove(vo)
+        rc, out, err = sh(['make', '-j16', name + '.vo'] + list(extra_targets), cwd=COQ, timeout=3000, check=False)
+    text = out + err
+    src = open(os.path.join(COQ, name + '.v')).read()
+    src_nc = re.sub(r'\(\*.*?\*\)', '', src, flags=re.S)
+    n_thm = len(re.findall(r'^\s*(Theorem|Corollary)\s', src_nc, flags=re.M))
+    n_pa = len(re.findall(r'^\s*Print Assumptions\s', src_nc, flags=re.M))
+    closed, axioms = assumptions_closed(text)
+    R.cov['obligations'] += n_thm
+    ok = rc == 0 and axioms == 0 and closed >= n_pa and n_pa >= n_thm
+    if ok:
+        R.cov['discharged'] += n_thm
+    else:
+        R.violation({'kind': 'theorem file coq/%s.v no longer checks' % name, 'rc': rc, 'theorems': n_thm, 'print_assumptions': n_pa,
+                     'closed': closed, 'axiom_reports': axioms, 'log': text[-3000:]}, no_input=True)
+    R.cov['checker_cmd'] = (R.cov.get('checker_cmd') or '') + 'make -C /verif/coq %s.vo (full .vo build, Print Assumptions under every theorem); ' % name
+    R.extra.setdefault('theorems', []).extend(re.findall(r'^\s*(?:Theorem|Corollary)\s+(\w+)', src_nc, flags=re.M))
+    return ok
+
+def ensure_model():
+    """the OCaml driver is rebuilt whenever the extracted model or the driver sources are newer"""
+    with Lock('coq'):
+        rc, out, err = sh(['make', '-j16', 'Extract.vo'], cwd=COQ, timeout=3000, check=False)
+        if rc != 0:
+            raise RuntimeError('Extract.vo does not build:\n' + (out + err)[-3000:])
+        od = os.path.join(VERIF, 'ocaml')
+        exe = os.path.join(od, 'driver.exe')
+        srcs = [os.path.join(od, f) for f in ('model.ml', 'driver.ml', 'ops2.ml')]
+        if not os.path.exists(srcs[0]):
+            os.remove(os.path.join(COQ, 'Extract.vo'))
+            sh(['make', '-j16', 'Extract.vo'], cwd=COQ, timeout=3000)
+        if not os.path.exists(exe) or any(os.path.getmtime(s) > os.path.getmtime(exe) for s in srcs):
+            sh(['sh', os.path.join(od, 'build.sh')], timeout=900)
+    return exe
+
+def setup_check(R, need_model=True):
+    """common preamble: scratch build of the tree + model driver.  Returns (cdir, harness, model) or None."""
+    try:
+        cdir = build_tree()
+    except BuildError as e:
+        R.violation({'kind': 'the tree does not build', 'stderr': str(e)[-3000:]}, no_input=True)
+        return None
+    model = ensure_model() if need_model else None
+    return cdir, os.path.join(cdir, 'harness'), model
+
+def diff_cases(R, lines, impl, model, label, key=lambda s: s, limit=5):
+    """correspondence: model output vs implementation output, case by case"""
+    n = 0
+    for l, a, b in zip(lines, impl, model):
+        if key(a) != key(b):
+            n += 1
+            if n <= limit:
+                R.extra.setdefault('correspondence_diffs', []).append({'case': l, 'impl': a, 'model': b, 'what': label})
+    return n
